@@ -1,7 +1,7 @@
 """C15 — hydroelastic contact polygons (structural clauses)."""
 from . import scopes
 from ..core.report import DOMAIN_D
-from ..rules import buffers, hydro, sides, unpack
+from ..rules import buffers, hydro, sides, unpack, misc2
 
 HY = "distance3d.hydroelastic_contact."
 MODS = {HY + "_tetrahedron_intersection", HY + "_halfplanes", HY + "_forces", HY + "_interface", HY + "_barycentric_transform"}
@@ -24,4 +24,7 @@ def run(idx, rep, tier):
     hydro.r_planecross(idx, rep)
     sides.r_sides(idx, rep, [m.name for m in idx.lib_modules() if "hydroelastic" in m.name], floor=20)
     hydro.r_invalidate(idx, rep)      # stale per-body caches (tetrahedra points, barycentric transforms) put polygons outside their tetrahedra
+    misc2.r_dupcond(idx, rep, [m.name for m in idx.lib_modules()], floor=3)
+    misc2.r_stiffness(idx, rep)
+    misc2.r_hplayout(idx, rep)
     unpack.r_unpack(idx, rep, floor=6)
